@@ -5,7 +5,10 @@ import (
 	"fmt"
 	"math"
 	"os"
+	"runtime"
 	"sort"
+	"strings"
+	"time"
 
 	"github.com/goghcrow/go-co/seq"
 
@@ -26,12 +29,12 @@ import (
 type MutK int
 
 const (
-	MSet    MutK = iota // slice: x[i] = v (ahead, behind or at the cursor)        map: m[k] = v (existing key)
-	MAppend             // slice: outer = append(outer, v) (iterator must not see it)
-	MReslice            // slice: outer = outer[:len/2]
-	MDelete             // map: delete(m, k)
-	MSend               // chan: ch <- v
-	MClose              // chan: close(ch)
+	MSet     MutK = iota // slice: x[i] = v (ahead, behind or at the cursor)        map: m[k] = v (existing key)
+	MAppend              // slice: outer = append(outer, v) (iterator must not see it)
+	MReslice             // slice: outer = outer[:len/2]
+	MDelete              // map: delete(m, k)
+	MSend                // chan: ch <- v
+	MClose               // chan: close(ch)
 )
 
 type Mut struct {
@@ -581,7 +584,54 @@ func dupVisit(visits []refPair) string {
 	return ""
 }
 
+// ---- a range over a nil channel blocks forever ----------------------------------------------
+//
+// The only case in which "what the loop does" is "never return". The advance runs on its own
+// goroutine; it either finishes (microseconds) or parks in a receive from a nil channel, a state
+// the Go runtime names in its goroutine dump and that nothing can ever leave: the verdict does
+// not depend on timing. (The parked goroutine is leaked; a worker runs a handful of these.)
+
+var nilChanMark = "[chan receive (nil chan)"
+
+func blockedOrDone(advance func() bool) hist.H {
+	before := strings.Count(allStacks(), nilChanMark)
+	done := make(chan bool, 1)
+	go func() { done <- advance() }()
+	for i := 0; i < 5000; i++ {
+		select {
+		case ok := <-done:
+			return hist.H{{K: hist.Ret, H: 0, Op: "MoveNext", OK: b2i(ok)}}
+		default:
+		}
+		time.Sleep(time.Millisecond)
+		if i%10 == 9 && strings.Count(allStacks(), nilChanMark) > before {
+			return hist.H{{K: hist.Mut, H: 0, Op: "MoveNext blocks forever (receive from a nil channel)", OK: -1}}
+		}
+	}
+	panic("C10: an advance over a nil channel neither finished nor parked within 5 s")
+}
+
+func allStacks() string {
+	buf := make([]byte, 1<<20)
+	return string(buf[:runtime.Stack(buf, true)])
+}
+
 func evalC10(c *C10Case) (class string, exp, obs hist.H, at int) {
+	if c.Kind == "chan-nil" {
+		var ch chan int
+		it := seq.NewChanIter[int](ch)
+		real := blockedOrDone(it.MoveNext)
+		ref := blockedOrDone(func() bool {
+			for range ch {
+				return true
+			}
+			return false
+		})
+		if i := hist.FirstDiff(ref, real); i >= 0 {
+			return "native-range: a range over a nil channel blocks forever; " + classOf(ref, real, i), ref, real, i
+		}
+		return "", ref, real, -1
+	}
 	real, visits, _ := playC10(c, true)
 	isMap := c.Kind == "map" || c.Kind == "map-any"
 	if isMap && len(c.Elems) > 1 {
@@ -732,6 +782,8 @@ func genC10(r *prng.R, kind string) *C10Case {
 			c.N = -1 // nil map
 		}
 		c.Steps = genSteps(r, kind, n)
+	case "chan-nil":
+		// nothing to draw
 	case "chan":
 		c.Cap = 1 + r.Intn(4)
 		n := r.Intn(c.Cap + 1)
@@ -756,6 +808,7 @@ func C10(j *core.Job) {
 		rep.Count("kind_"+k, 0)
 	}
 	rep.Count("nan_map_keys", 0)
+	rep.Count("kind_chan-nil", 0)
 	for _, k := range []string{"mutator_steps_applied", "mutator_steps_applied_multi_entry_maps_order_dependent", "strings_enumerated_exhaustively", "strings_with_invalid_utf8", "map_multi_entry_invariant_oracle", "map_single_entry_exact", "nil_interface_elements"} {
 		rep.Count(k, 0)
 	}
@@ -792,6 +845,17 @@ func C10(j *core.Job) {
 		}
 	}
 	for _, b := range j.Batches {
+		// one range over a nil channel per batch (each leaks a goroutine parked forever)
+		nc := &C10Case{Property: "C10", Kind: "chan-nil", Seed: j.Seed, Batch: b, Index: 49999}
+		if class, exp, obs, at := evalC10(nc); true {
+			rep.Evals++
+			rep.Count("kind_chan-nil", 1)
+			if class != "" && len(rep.Violations) < maxViolationsPerWorker {
+				nc.Class, nc.Expected, nc.Observed, nc.DiffAt = class, exp.Strings(), obs.Strings(), at
+				path := ev.WriteReplay("C10", int64(nc.Seed), nc.Batch*100000+nc.Index, nc)
+				rep.Violations = append(rep.Violations, ev.Violation{Prop: "C10", Class: nc.Class, Replay: path})
+			}
+		}
 		// exhaustive share of the string space: strings n with n % totalBatches == b
 		total := j.TotalBatches()
 		for n := b; n < exhaustive; n += total {
